@@ -178,10 +178,10 @@ func (i *tImpl) Unary(c *dyn.Call) (proto.Message, error) {
 	if s.Err != nil {
 		return nil, s.Err
 	}
-	if len(s.Replies) > 0 {
+	if len(s.Replies) > 0 && s.Replies[0].ProtoReflect().Descriptor() == c.Desc.Output() {
 		return s.Replies[0], nil
 	}
-	return dynamicpb.NewMessage(c.Desc.Output()), nil
+	return dynamicpb.NewMessage(c.Desc.Output()), nil // generated code cannot return another type
 }
 
 func (i *tImpl) Stream(c *dyn.Call) error {
@@ -216,6 +216,9 @@ func (i *tImpl) Stream(c *dyn.Call) error {
 	}
 	sent := 0
 	sendOne := func(m proto.Message) bool {
+		if m.ProtoReflect().Descriptor() != c.Desc.Output() {
+			m = dynamicpb.NewMessage(c.Desc.Output())
+		}
 		if sent == 0 && s.SendHdr != nil {
 			i.log.HdrErr = append(i.log.HdrErr, st.SendHeader(s.SendHdr))
 		}
